@@ -514,9 +514,10 @@ func (fr *Frame) applyContract(s *State, g *Term, fc *FuncContract, callee *ssa.
 	for top := fr; top != nil; top = top.parent {
 		if top.contract != nil {
 			for _, cr := range top.contract.CallRequires {
-				if !strings.HasSuffix(fc.Key, cr.CbName) {
+				if !calleeMatches(fc.Key, cr.CbName) {
 					continue
 				}
+				cr.Matched++
 				extra := map[string]*Term{}
 				top.cbArgTypes = map[string]types.Type{}
 				var ats []types.Type
@@ -599,9 +600,10 @@ func (fr *Frame) applyContract(s *State, g *Term, fc *FuncContract, callee *ssa.
 	for top := fr; top != nil; top = top.parent {
 		if top.contract != nil {
 			for _, ca := range top.contract.CallAssumes {
-				if !strings.HasSuffix(fc.Key, ca.CbName) {
+				if !calleeMatches(fc.Key, ca.CbName) {
 					continue
 				}
+				ca.Matched++
 				ex := map[string]*Term{}
 				top.cbArgTypes = map[string]types.Type{}
 				if res != nil {
@@ -648,6 +650,18 @@ func (fr *Frame) applyContract(s *State, g *Term, fc *FuncContract, callee *ssa.
 		x.iterators[res] = it
 	}
 	return res
+}
+
+// calleeMatches: a call-site clause names its callee by a suffix of the callee's key; the key of a contract written
+// for one instantiation of a generic function ends in "[typeargs]", which the clause may leave out.
+func calleeMatches(key, name string) bool {
+	if strings.HasSuffix(key, name) {
+		return true
+	}
+	if i := strings.LastIndex(key, "["); i > 0 && strings.HasSuffix(key, "]") {
+		return strings.HasSuffix(key[:i], name)
+	}
+	return false
 }
 
 func lastDot(s string) string {
